@@ -90,5 +90,7 @@ class TpmFile(Tpm):
         else:
             raise ValueError(f'Unsupported key type {key_type}')
         key_name = self.construct_key_name(id_name, pub_key, **kwargs)
+        if self.key_exist(key_name):
+            raise KeyError(f'Key {Name.to_str(key_name)} already exists')
         self.save_key(key_name, key_der)
         return key_name, pub_key
